@@ -27,7 +27,7 @@ RULE = (
 )
 ASSUMPTIONS = [
     "features are added to the un-sliced parent (offset 0) or written to the annotation db in absolute coordinates (parents built with an annotation offset); adding features to an already sliced view is outside the domain (ambiguous in the docs)",
-    "strided views are excluded (annotations are documented as dropped for them)",
+    "views with a negative stride other than -1 are excluded (annotations are documented as dropped for them); views with a positive stride keep their annotations and are checked over whole-view queries: a feature with residues retained by the view must be returned with exactly those residues, one without may be returned with an empty slice",
     "a feature matches a query window by its envelope [min start, max stop): overlap when allow_partial, containment otherwise (documented db behaviour); a returned feature whose spans all miss the view must slice to the empty string",
     "query windows are non-empty and lie inside the view",
 ]
@@ -127,6 +127,107 @@ def seq_cases(draw):
             q["start"], q["stop"] = lattice[i], lattice[j]
         queries.append(q)
     return {"impl": impl, "parent": parent, "offset": offset, "features": feats, "history": hist, "queries": queries}
+
+
+@st.composite
+def strided_cases(draw):
+    """views with a positive stride keep their annotations; queries are over the whole view"""
+    impl = draw(st.sampled_from(["old", "new"]))
+    L = draw(st.integers(8, 40))
+    parent = "".join(draw(st.lists(st.sampled_from("ACGT"), min_size=L, max_size=L)))
+    offset = draw(st.sampled_from([0, 0, 5]))
+    feats = [draw(feature_st(L, offset, i)) for i in range(draw(st.integers(1, 3)))]
+    V = list(range(L))
+    hist = []
+    strided = False
+    for _ in range(draw(st.integers(1, 4))):
+        n = len(V)
+        if n < 2:
+            break
+        kind = draw(st.sampled_from(["stride", "stride", "slice", "rc", "copy"]))
+        if kind in ("stride", "slice"):
+            a = draw(st.integers(0, n - 1))
+            b = draw(st.integers(a + 1, n))
+            k = draw(st.sampled_from([2, 2, 3, 4])) if kind == "stride" else 1
+            if len(V[a:b:k]) < 1:
+                continue
+            hist.append(["slice", a, b, k])
+            V = V[a:b:k]
+            strided = strided or k > 1
+        elif kind == "rc":
+            if strided:
+                continue  # a negative step on a strided view is a new stride sign; keep to documented forward strides
+            hist.append(["rc"])
+            V = V[::-1]
+        else:
+            hist.append(["copy"])
+    return {"impl": impl, "parent": parent, "offset": offset, "features": feats, "history": hist}
+
+
+def exec_strided(case) -> Soft:
+    s = Soft("C04/")
+    impl = case["impl"]
+    pre = f"strided/{impl}/"
+    parent, offset = case["parent"], case["offset"]
+    qcase = dict(case, queries=[])
+    ok, seq = s.call(pre + "construct", build_seq, qcase)
+    if not ok:
+        return s
+    V = list(range(len(parent)))
+    view = seq
+    rev = False
+    strided = False
+    for op in case["history"]:
+        if op[0] == "slice":
+            a, b, k = op[1], op[2], op[3]
+            ok, view2 = s.call(pre + "slice", lambda: view[a:b:k] if k > 1 else view[a:b])
+            V = V[a:b:k]
+            strided = strided or k > 1
+        elif op[0] == "rc":
+            ok, view2 = s.call(pre + "rc", view.rc)
+            V = V[::-1]
+            rev = not rev
+        else:
+            ok, view2 = s.call(pre + "copy", view.copy)
+        if not ok:
+            return s
+        view = view2
+    want_str = "".join(parent[i] for i in V)
+    if rev:
+        want_str = "".join(COMP[c] for c in want_str)
+    ok, got = s.call(pre + "str", str, view)
+    if ok and not s.eq(got, want_str, pre + "str", f"history {case['history']}"):
+        return s
+    if not strided:
+        return s
+    s.cls(impl, "strided")
+    Vset = set(V)
+    what = f"parent {parent!r} offset {offset} features {case['features']} history {case['history']}"
+    ok, feats = s.call(pre + "get_features[partial]", lambda: list(view.get_features(allow_partial=True)))
+    if not ok:
+        return s
+    want = {}
+    for n_, f in enumerate(case["features"]):
+        idx = [i for a, b in f["spans"] for i in range(a - offset, b - offset) if i in Vset]
+        txt = "".join(parent[i] for i in idx)
+        want[(f["name"], f["biotype"], n_)] = (rc(txt) if f["strand"] == "-" else txt, f)
+    got = []
+    for ft in feats:
+        ok2, sl = s.call(pre + "get_slice", lambda: str(ft.get_slice()))
+        if ok2:
+            got.append((ft.name, ft.biotype, sl))
+    # every feature with residues in the view must be returned with exactly those residues;
+    # a returned feature must slice to the residues the view retains (possibly none)
+    want_multiset = sorted((k[0], k[1], v[0]) for k, v in want.items() if v[0])
+    got_nonempty = sorted(g for g in got if g[2])
+    if got_nonempty != want_multiset:
+        s.fail(pre + "residues", f"{what}: returned {got_nonempty} expected {want_multiset}")
+    allowed_empty = sorted((k[0], k[1]) for k, v in want.items() if not v[0])
+    for g in got:
+        if not g[2]:
+            s.check((g[0], g[1]) in allowed_empty, pre + "unexpected-empty-feature", f"{what}: {g}")
+    s.nontrivial = any(0 < len(v[0]) < sum(b - a for a, b in v[1]["spans"]) for v in want.values())
+    return s
 
 
 # ---------------------------------------------------------------- execute
@@ -430,6 +531,7 @@ def rc_gapped(s):
 SUBS = [
     Sub("sequence", exec_seq, strategy=seq_cases(), quick=2400, thorough=320_000, shards_quick=16),
     Sub("alignment", exec_aln, strategy=aln_cases(), quick=800, thorough=64_000, shards_quick=16),
+    Sub("strided", exec_strided, strategy=strided_cases(), quick=1200, thorough=96_000, shards_quick=16),
 ]
 
 KNOWN_PREDICATES = {}
